@@ -153,14 +153,27 @@ func markAtom(in inside, a string, start int) {
 var pieces = []string{"a", "Bc", "x y", " ", "0", "(", ")", ";", "'", "`", ",", ",@", "#", "#(", "@", ".", ":", "é", "ß", "λ", "日本", "\U0001F600",
 	"\ufeff", "\u2028", "\u00a0", "\ufffd", "\u00ad", "\ufeffx", "q\ufeff", "\n", "\t", "  "}
 
+// plainText is set while a "plain" text is generated: one without the escape
+// character, the bar, # and the comma, i.e. a text the byte-at-a-time read of
+// a stream that can not seek handles on the unchanged tree (front
+// cl:peek+read-nonseek-safe). Without this profile hardly any text with
+// several forms, strings and comments qualified for that front (seeded change
+// C02-k1: a parenthesis count that does not know strings and comments).
+var plainText bool
+
+const notPlain = "\\|#,"
+
 func compose(r *tape.Rand, extra []string) string {
 	var b strings.Builder
 	for i, n := 0, r.Intn(6); i < n; i++ {
+		piece := pieces[r.Intn(len(pieces))]
 		if len(extra) > 0 && r.Pct(25) {
-			b.WriteString(extra[r.Intn(len(extra))])
-		} else {
-			b.WriteString(pieces[r.Intn(len(pieces))])
+			piece = extra[r.Intn(len(extra))]
 		}
+		if plainText && strings.ContainsAny(piece, notPlain) {
+			piece = []string{"(", ")", "((", ";", "'", " "}[r.Intn(6)]
+		}
+		b.WriteString(piece)
 	}
 	return b.String()
 }
@@ -189,6 +202,9 @@ func genComment(r *tape.Rand) string {
 }
 
 func pickComment(r *tape.Rand) string {
+	if plainText {
+		return ";" + strings.ReplaceAll(compose(r, []string{`"`, "(", ")"}), "\n", " ") + "\n"
+	}
 	if r.Pct(50) {
 		return genComment(r)
 	}
@@ -196,6 +212,15 @@ func pickComment(r *tape.Rand) string {
 }
 
 func genAtom(r *tape.Rand) string {
+	for {
+		a := genAtomAny(r)
+		if !plainText || !strings.ContainsAny(a, notPlain) {
+			return a
+		}
+	}
+}
+
+func genAtomAny(r *tape.Rand) string {
 	switch r.Intn(10) {
 	case 0, 1, 2:
 		if r.Pct(20) {
@@ -223,7 +248,9 @@ func genForm(r *tape.Rand, depth int, b *strings.Builder, in inside) {
 		open := "("
 		switch r.Intn(8) {
 		case 0:
-			open = "#("
+			if !plainText {
+				open = "#("
+			}
 		case 1:
 			open = "'("
 		}
@@ -234,7 +261,7 @@ func genForm(r *tape.Rand, depth int, b *strings.Builder, in inside) {
 				b.WriteString(seps[r.Intn(len(seps))])
 			}
 			genForm(r, depth-1, b, in)
-			if r.Pct(6) {
+			if r.Pct(6) || (plainText && r.Pct(15)) {
 				b.WriteString(" ")
 				b.WriteString(pickComment(r))
 			}
@@ -294,7 +321,9 @@ func (e *engine) Generate(seed uint64, idx int, tier string, avoid []harness.Fin
 		c.FloatFmt = []string{"single-float", "short-float", "long-float"}[r.Intn(3)]
 	}
 	in := inside{}
+	plainText = r.Pct(15)
 	text := genText(r, in)
+	plainText = false
 	if r.Pct(25) && len(text) > 2 { // truncated: the producer died
 		cut := 1 + r.Intn(len(text)-1)
 		if r.Pct(40) && len(in) > 0 { // prefer a cut inside a form
